@@ -396,6 +396,27 @@ func checkC07(c *Ctx) {
 
 	// ---- C07.4 family gates
 	r.Rule("C07.4", "family gates and the IPv6-registrant / IPv4-phantom rejection", 3)
+	// the switches the gates read are the operator's: nothing in the program sets enable_v4 / enable_v6 (a "neither is
+	// set, serve both" default, a reload that flips one) - a station with a family disabled would serve it
+	{
+		nW := 0
+		for _, g := range c.P.RepoFuncs() {
+			for _, fld := range []string{"EnableIPv4", "EnableIPv6"} {
+				for _, st := range fieldStores(g, "lib.RegConfig", fld) {
+					if fa, ok := st.Addr.(*ssa.FieldAddr); ok {
+						if al, isA := fa.X.(*ssa.Alloc); isA && freshRoot(al, g) && strings.HasSuffix(pathOf(st.Val), "."+fld) {
+							continue // a copy of a configuration, field by field
+						}
+					}
+					nW++
+					r.Bad("C07.4", fnName(g)+": writes RegConfig."+fld, st.Pos(), fnName(g), "the address-family switch "+fld+" is set by the program ("+firstN(pathOf(st.Val), 40)+"), not by the configuration: registrations of a family the operator disabled become connectable and are announced")
+				}
+			}
+		}
+		if nW == 0 {
+			r.OK("C07.4", "RegConfig.EnableIPv4 / EnableIPv6 have no writer in the program", token.NoPos, "only the configuration decoder sets them")
+		}
+	}
 	if p := c.fn("C07.4", lib, "RegistrationManager", "parseRegMessage"); p != nil {
 		n := 0
 		for _, ci := range callsIn(p, shortIs("NewRegistrationC2SWrapper")) {
